@@ -469,6 +469,16 @@ def check_probs(ctx, chk):
     lens = any(f_show(F) == f"len({P})=={fi.params[1]}" for F, _ in guards)
     chk.ob("C15.probs", "_get_action_probs: a list specification has one entry per action", lens, "",
            fi.module.path)
+    # accept side: every rejection guard of the function is one of the documented ones - a
+    # specification in the documented domain (None, 'mixed', list of (0,1], float in (0,1]) is
+    # never rejected
+    allowed = [want_float, want_list, A(f"len({P})=={fi.params[1]}"),
+               A(f"isinstance({P}, float)")]
+    for F, g in guards:
+        ok_g = any(f_equiv(F, a) for a in allowed)
+        chk.ob("C15.probs", f"_get_action_probs: the guard at line {g.loc.split(':')[1]} rejects "
+               "only specifications outside the documented domain", ok_g, f_show(F)[:200], g.loc,
+               nontrivial=False)
     # 'mixed' levels: the population np.random.choice draws from (the call that carries p=...) is
     # made of literals in (0, 1], on every path
     bad = []
@@ -686,7 +696,13 @@ def check_hosts(ctx, chk):
     fi, ip, s, cn = method_run(ctx, "_convert_to_os_map")
     from .shapes import as_mapping
     mp = as_mapping(ip, cn, s.returns[0][1]) if len(s.returns) == 1 else None
-    if mp is None:
+    rt = s.returns[0][1] if len(s.returns) == 1 else None
+    if rt is not None and rt[0] == "dictobj" and not ip.heap[rt[1]]["items"] \
+            and not ip.heap[rt[1]]["dyn"]:
+        chk.ob("C15.hosts", "_convert_to_os_map: os_map[name] = (name == os) for every declared OS "
+               "(one-hot by construction)", False, "the returned dict is never filled",
+               fi.module.path)
+    elif mp is None:
         chk.undecided("C15.hosts", "_convert_to_os_map: os_map[name] = (name == os) for every "
                       "declared OS (one-hot by construction)", "the returned value is not a "
                       "mapping built uniformly over one iterable: "
